@@ -5,7 +5,7 @@ from fw import Corr, Failure, cbool, cbytes
 
 TITLE = 'Incoming messages reach exactly the responders that should fire'
 TRANSLATED = []
-MODEL_TARGETS = ['model/OscMatch.vo', 'model/OscBundleParse.vo', 'model/Dispatch.vo', 'model/Registry.vo']
+MODEL_TARGETS = ['model/OscMatch.vo', 'model/OscBundleParse.vo', 'model/Dispatch.vo', 'model/DispatchExc.vo', 'model/Registry.vo']
 ALLOWED_AXIOMS = []
 TRUSTED = [
     "Python's re engine, by specification: re.fullmatch(p, s) <=> s is in the regular language of p, for the fragment the "
@@ -79,9 +79,12 @@ def pad_str(b):
     return b + b'\0' * (4 - len(b) % 4)
 
 
-def enc_msg(addr, args):
-    """args: list of (tag, value).  -> (bytes, offsets of blob size fields)"""
-    tags = ','
+def enc_msg(addr, args, comma=True, notags=False):
+    """args: list of (tag, value).  -> (bytes, offsets of blob size fields)
+    comma=False: type tag string without its leading ','; notags: address only"""
+    if notags:
+        return pad_str(addr.encode('utf-8')), []
+    tags = ',' if comma else ''
     body = b''
     offs = []
     for t, v in args:
@@ -252,27 +255,62 @@ def corr_pairs(ctx, c):
 
 # --------------------------------------------------------------------------------------------
 # (ii) responder histories through the real receive path
-PATHS = ['/a', '/ab', '/a/b', '/b', 'a', '/abc']
-ADDRS = ['/a', '/ab', '/a/b', '/b', '/abc', '/?', '/a*', '/{a,ab}', '/[ab]', '/*', '/a?', '/*/b', '/[!b]*', '/c']
-SRCS = [None, ['127.0.0.1', None], ['127.0.0.1', 9001], ['127.0.0.2', None]]
-SENDERS = [['127.0.0.1', 9001], ['127.0.0.1', 9002], ['127.0.0.2', 9001]]
-TMPLS = [None, None, [['eq', ['i', '1']]], [None, ['eq', ['s', list(b'x')]]], [['pred', 'pos']],
-         [['eq', ['i', '1']], ['eq', ['i', '2']]], [None, None], [['pred', 'isstr'], None]]
-ARGS = [[], [('i', 1)], [('i', 1), ('i', 2)], [('i', 2), ('s', 'x')], [('s', 'x')], [('i', -3)], [('i', 1), ('s', 'x')]]
+PATHS = ['/a', '/ab', '/a/b', '/b', 'a', '/abc', '/', '/a/', '']
+ADDRS = ['/a', '/ab', '/a/b', '/b', '/abc', '/?', '/a*', '/{a,ab}', '/[ab]', '/*', '/a?', '/*/b', '/[!b]*', '/c',
+         '/', '/a/', '/a/*', '/*/', '/{,a}', '/[a-]']
+SRCS = [None, ['127.0.0.1', None], ['127.0.0.1', 9001], ['127.0.0.2', None], ['127.0.0.1', 0], ['0.0.0.0', None]]
+SENDERS = [['127.0.0.1', 9001], ['127.0.0.1', 9002], ['127.0.0.2', 9001], ['127.0.0.1', 0], ['0.0.0.0', 9001]]
+F0, FM0, F1 = str(0), str(1 << 63), str(0x3ff0000000000000)          # 0.0, -0.0, 1.0 as binary64 words
+# argument templates: None = wildcard; 0 / 0.0 / False / '' must match only what equals them (Python ==);
+# callables are taken by truthiness (ident returns the argument itself), may raise (gt5raw); [] and a scalar
+TMPLS = [[['eq', ['i', '1']]], [None, ['eq', ['s', list(b'x')]]], [['pred', 'pos']],
+         [['eq', ['i', '1']], ['eq', ['i', '2']]], [None, None], [['pred', 'isstr'], None],
+         [['eq', ['i', '0']]], [['eq', ['f', F0]]], [['eq', ['f', FM0]]], [['eq', ['B', 0]]], [['eq', ['B', 1]]],
+         [['eq', ['s', []]]], [['eq', ['f', F1]]], [], {'scalar': ['eq', ['i', '0']]}, {'scalar': None},
+         [['pred', 'ident']], [None, ['pred', 'ident']], [['pred', 'gt5raw']], [['eq', ['i', '0']], None]]
+ARGS = [[], [('i', 1)], [('i', 1), ('i', 2)], [('i', 2), ('s', 'x')], [('s', 'x')], [('i', -3)], [('i', 1), ('s', 'x')],
+        [('i', 0)], [('f', 0.0)], [('f', -0.0)], [('F', None)], [('T', None)], [('s', '')], [('d', 1.0)], [('i', 7)],
+        [('b', b'')], [('b', b'x')], [('i', 0), ('i', 0)], [('f', 1.0), ('s', '')]]
 
 
 def gen_history(rng, maxops):
+    """shape: 'plain' (both dispatchers, fresh functions), 'share' (one dispatcher kind, function
+    objects shared between responders), 'raise' (one dispatcher kind, some functions / template
+    callables raise)"""
     ops, n, tag, used = [], 0, 0, []
     shape = rng.random()
+    kind = 'plain' if rng.random() < 0.6 else rng.choice(['share', 'raise'])
+    only = None if kind == 'plain' else (rng.random() < 0.5)
+    shared_tags = []
+
+    def new_fn():
+        nonlocal tag
+        if kind == 'share' and rng.random() < 0.6:
+            if shared_tags and rng.random() < 0.7:
+                return {'tag': rng.choice(shared_tags), 'share': True}
+            shared_tags.append(tag)
+            tag += 1
+            return {'tag': shared_tags[-1], 'share': True}
+        tag += 1
+        return {'tag': tag - 1, 'raises': kind == 'raise' and rng.random() < 0.35}
+
     for _ in range(rng.randint(3, maxops)):
         k = rng.random()
         if n == 0 or k < 0.28:
-            path = rng.choice(PATHS[:2]) if shape < 0.4 else rng.choice(PATHS)
-            used.append(path if path[0] == '/' else '/' + path)
-            ops.append(['create', path, rng.random() < 0.45, rng.choice(SRCS) if rng.random() < 0.25 else None,
-                        rng.choice([None, None, None, 0, 1]), rng.choice(TMPLS) if rng.random() < 0.35 else None, tag])
-            n += 1
-            tag += 1
+            path = rng.choice(PATHS[:2]) if shape < 0.4 else rng.choice(PATHS if rng.random() < 0.9 else PATHS[-1:])
+            matching = (rng.random() < 0.45) if only is None else only
+            tm = None
+            if rng.random() < 0.3:
+                tm = rng.choice(TMPLS)
+                if kind != 'raise' and tm == [['pred', 'gt5raw']]:
+                    tm = [['pred', 'ident']]
+            if kind == 'share' and rng.random() < 0.7:
+                tm = None
+            ops.append(['create', path, matching, rng.choice(SRCS) if rng.random() < 0.15 else None,
+                        rng.choice([None, None, None, None, None, None, 0, 1, 'zero']), tm, new_fn()])
+            if path != '':
+                used.append(path if path[0] == '/' else '/' + path)
+                n += 1
         elif k < 0.36:
             ops.append(['disable', rng.randrange(n)])
         elif k < 0.43:
@@ -282,19 +320,21 @@ def gen_history(rng, maxops):
         elif k < 0.57:
             ops.append(['free', rng.randrange(n)])
         elif k < 0.63:
-            ops.append(['set_func', rng.randrange(n), tag])
-            tag += 1
+            ops.append(['set_func', rng.randrange(n), new_fn()])
         elif k < 0.66:
             ops.append(['cmd_period'])
         else:
-            addr = rng.choice(used) if rng.random() < 0.5 else rng.choice(ADDRS[:5]) if rng.random() < 0.3 else rng.choice(ADDRS)
+            addr = rng.choice(used) if (used and rng.random() < 0.65) else rng.choice(ADDRS[:5]) if rng.random() < 0.3 else rng.choice(ADDRS)
+            if kind == 'raise' and any(c in addr for c in '{[') and addr not in ('/{a,ab}', '/[ab]', '/[!b]*', '/{,a}', '/[a-]'):
+                addr = '/a'
             if rng.random() < 0.8:
-                d = enc_msg(addr, rng.choice(ARGS))[0]
+                r = rng.random()
+                d = enc_msg(addr, rng.choice(ARGS), comma=r > 0.06, notags=r > 0.94)[0]
             else:
-                tt = rng.choice([1, (1 << 40) + rng.randrange(1 << 20), (1 << 41) + rng.randrange(1 << 20)])
+                tt = rng.choice([0, 1, 2, (1 << 40) + rng.randrange(1 << 20), (1 << 41) + rng.randrange(1 << 20)])
                 e1 = enc_msg(addr, rng.choice(ARGS))
                 e2 = enc_msg(rng.choice(ADDRS[:5]), rng.choice(ARGS))
-                inner = enc_bundle((1 << 40) + 5, [(e2[0], ([], e2[1]))])
+                inner = enc_bundle(rng.choice([0, 1, (1 << 40) + 5]), [(e2[0], ([], e2[1]))])
                 elems = [(e1[0], ([], e1[1]))]
                 if rng.random() < 0.6:
                     elems.append((inner[0], (inner[1], inner[2])))
@@ -303,38 +343,78 @@ def gen_history(rng, maxops):
     return ops
 
 
+def fn(tag, **kw):
+    d = {'tag': tag}
+    d.update(kw)
+    return d
+
+
+def hist_kind(h):
+    fns = [op[6] for op in h if op[0] == 'create'] + [op[2] for op in h if op[0] == 'set_func']
+    return {'share': any(f.get('share') for f in fns), 'raise': any(f.get('raises') for f in fns),
+            'predx': any(isinstance(op[5], list) and ['pred', 'gt5raw'] in op[5] for op in h if op[0] == 'create')}
+
+
+M_A1 = enc_msg('/a', [('i', 1)])[0].hex()
 FIXED_HISTORIES = [
     # a one-shot responder followed by ordinary ones on the same path
-    [['create', '/a', False, None, None, None, 0], ['one_shot', 0], ['create', '/a', False, None, None, None, 1],
-     ['create', '/a', False, None, None, None, 2], ['dgram', enc_msg('/a', [('i', 1)])[0].hex(), SENDERS[0], 0],
-     ['dgram', enc_msg('/a', [('i', 1)])[0].hex(), SENDERS[0], 0]],
+    [['create', '/a', False, None, None, None, fn(0)], ['one_shot', 0], ['create', '/a', False, None, None, None, fn(1)],
+     ['create', '/a', False, None, None, None, fn(2)], ['dgram', M_A1, SENDERS[0], 0], ['dgram', M_A1, SENDERS[0], 0]],
     # the same on the matching dispatcher
-    [['create', '/a', True, None, None, None, 0], ['one_shot', 0], ['create', '/a', True, None, None, None, 1],
+    [['create', '/a', True, None, None, None, fn(0)], ['one_shot', 0], ['create', '/a', True, None, None, None, fn(1)],
      ['dgram', enc_msg('/?', [])[0].hex(), SENDERS[0], 0]],
     # a template longer than the message, then an unfiltered responder
-    [['create', '/a', False, None, None, [['eq', ['i', '1']], ['eq', ['i', '2']]], 0], ['create', '/a', False, None, None, None, 1],
-     ['dgram', enc_msg('/a', [('i', 1)])[0].hex(), SENDERS[0], 0], ['dgram', enc_msg('/a', [('i', 1), ('i', 2)])[0].hex(), SENDERS[0], 0]],
+    [['create', '/a', False, None, None, [['eq', ['i', '1']], ['eq', ['i', '2']]], fn(0)], ['create', '/a', False, None, None, None, fn(1)],
+     ['dgram', M_A1, SENDERS[0], 0], ['dgram', enc_msg('/a', [('i', 1), ('i', 2)])[0].hex(), SENDERS[0], 0]],
     # prefix: /a must not fire the matching responder /ab
-    [['create', '/ab', True, None, None, None, 0], ['create', '/a', True, None, None, None, 1],
+    [['create', '/ab', True, None, None, None, fn(0)], ['create', '/a', True, None, None, None, fn(1)],
      ['dgram', enc_msg('/a', [])[0].hex(), SENDERS[0], 0], ['dgram', enc_msg('/a*', [])[0].hex(), SENDERS[0], 0]],
     # matching dispatcher: order is by path, then registration
-    [['create', '/a', True, None, None, None, 0], ['create', '/b', True, None, None, None, 1], ['create', '/a', True, None, None, None, 2],
+    [['create', '/a', True, None, None, None, fn(0)], ['create', '/b', True, None, None, None, fn(1)], ['create', '/a', True, None, None, None, fn(2)],
      ['dgram', enc_msg('/?', [])[0].hex(), SENDERS[0], 0], ['cmd_period'], ['dgram', enc_msg('/?', [])[0].hex(), SENDERS[0], 0]],
+    # one function object in two responders, then function replacement / one_shot / disable on the second
+    [['create', '/a', False, None, None, None, fn(0, share=True)], ['create', '/a', False, None, None, None, fn(0, share=True)],
+     ['set_func', 1, fn(1)], ['dgram', M_A1, SENDERS[0], 0], ['one_shot', 0], ['dgram', M_A1, SENDERS[0], 0], ['dgram', M_A1, SENDERS[0], 0]],
+    # template 0 is not a wildcard; re-enable goes to the end; replacement keeps the place
+    [['create', '/a', False, None, None, [['eq', ['i', '0']]], fn(0)], ['create', '/a', False, None, None, None, fn(1)],
+     ['create', '/a', False, None, 'zero', None, fn(2)], ['create', '/a', False, ['127.0.0.1', 0], None, None, fn(3)],
+     ['dgram', enc_msg('/a', [('i', 5)])[0].hex(), SENDERS[0], 0], ['dgram', enc_msg('/a', [('i', 0)])[0].hex(), SENDERS[3], 0],
+     ['disable', 0], ['enable', 0], ['set_func', 1, fn(4)], ['dgram', enc_msg('/a', [('F', None)])[0].hex(), SENDERS[3], 0]],
+    # a raising responder between two others, then the next datagram
+    [['create', '/a', False, None, None, None, fn(0)], ['create', '/a', False, None, None, None, fn(1, raises=True)], ['one_shot', 1],
+     ['create', '/a', False, None, None, None, fn(2)], ['dgram', M_A1, SENDERS[0], 0], ['dgram', M_A1, SENDERS[0], 0]],
+    # a raising template callable
+    [['create', '/a', True, None, None, [['pred', 'gt5raw']], fn(0)], ['create', '/a', True, None, None, None, fn(1)],
+     ['dgram', enc_msg('/a', [('s', 'x')])[0].hex(), SENDERS[0], 0], ['dgram', enc_msg('/a', [('i', 9)])[0].hex(), SENDERS[0], 0]],
+    # '' is refused, '/' is a path
+    [['create', '', False, None, None, None, fn(0)], ['create', '/', False, None, None, None, fn(1)],
+     ['dgram', enc_msg('/', [], notags=True)[0].hex(), SENDERS[0], 0]],
 ]
+
+
+def item_term(it):
+    if it is None:
+        return 'TAny'
+    if it[0] == 'eq':
+        return '(TEq %s)' % cval(it[1])
+    return '(TPredX pred_gt5raw)' if it[1] == 'gt5raw' else '(TPred pred_%s)' % it[1]
 
 
 def op_term(op, ports):
     k = op[0]
     if k == 'create':
-        _, path, matching, src, rif, tmpl, tag = op
+        _, path, matching, src, rif, tmpl, f = op
         srct = copt(src, lambda s: '(%d, %s)' % (ip_int(s[0]), copt(s[1], str)))
-        tm = copt(tmpl, lambda t: '[%s]' % '; '.join(
-            'TAny' if it is None else ('(TEq %s)' % cval(it[1]) if it[0] == 'eq' else '(TPred pred_%s)' % it[1]) for it in t))
-        return '(OpCreate %s %s %s %s %s %d%%nat)' % (cs(path), cbool(matching), srct, copt(rif, lambda i: str(ports[i])), tm, tag)
+        if isinstance(tmpl, dict):
+            tm = '(Some [%s])' % item_term(tmpl['scalar'])
+        else:
+            tm = copt(tmpl, lambda t: '[%s]' % '; '.join(item_term(it) for it in t))
+        return '(OpCreate %s %s %s %s %s %d%%nat)' % (cs(path), cbool(matching), srct,
+                                                      copt(rif, lambda i: '0' if i == 'zero' else str(ports[i])), tm, f['tag'])
     if k in ('enable', 'disable', 'one_shot', 'free'):
         return '(Op%s %d%%nat)' % ({'enable': 'Enable', 'disable': 'Disable', 'one_shot': 'OneShot', 'free': 'Free'}[k], op[1])
     if k == 'set_func':
-        return '(OpSetFunc %d%%nat %d%%nat)' % (op[1], op[2])
+        return '(OpSetFunc %d%%nat %d%%nat)' % (op[1], op[2]['tag'])
     if k == 'cmd_period':
         return 'OpCmdPeriod'
     if k == 'dgram':
@@ -350,11 +430,40 @@ def inv_term(x):
         rid, tag, cmsg(msg), ctime(t), sa, sp, rp)
 
 
+def state_term(st):
+    tbl = lambda t: '[%s]' % '; '.join('(%s, [%s])' % (zl(k), '; '.join('%d%%nat' % i for i in ids)) for k, ids in t)
+    return '((%s, %s, %s, [%s]) : sstate)' % ('[%s]' % '; '.join(cbool(b) for b in st['en']), tbl(st['ex']), tbl(st['mt']),
+                                              '; '.join('%d%%nat' % i for i in st['cp']))
+
+
+def raises_of(h):
+    fns = [op[6] for op in h if op[0] == 'create'] + [op[2] for op in h if op[0] == 'set_func']
+    return sorted(set(f['tag'] for f in fns if f.get('raises')))
+
+
 RT_HEADER = '''From Coq Require Import ZArith List Bool. Import ListNotations.
-Require Import SC3.lib.PyNum SC3.model.OscMatch SC3.model.OscBundleParse SC3.model.Dispatch.
+Require Import SC3.lib.PyNum SC3.model.OscMatch SC3.model.OscBundleParse SC3.model.Dispatch SC3.model.DispatchExc.
 Open Scope Z_scope.
 Definition pred_pos (v : oval) : bool := match v with VInt z => 0 <? z | _ => false end.
 Definition pred_isstr (v : oval) : bool := match v with VStr _ => true | _ => false end.
+(* lambda x: x  -- taken by truthiness *)
+Definition pred_ident (v : oval) : bool :=
+  match v with
+  | VInt z => negb (z =? 0) | VFloat w => negb ((w =? 0) || (w =? 9223372036854775808)) | VBool b => b
+  | VStr l => negb (match l with [] => true | _ => false end) | VBlob l => negb (match l with [] => true | _ => false end)
+  | VArr l => negb (match l with [] => true | _ => false end) | VMidi _ => true
+  end.
+(* lambda x: x > 5  -- TypeError (None) on str, bytes, tuple, list *)
+Definition pred_gt5raw (v : oval) : option bool :=
+  match v with
+  | VInt z => Some (5 <? z)
+  | VBool _ => Some false
+  | VFloat w => match f64_parts w with
+                | Some (m, e) => Some (if 0 <=? e then 5 <? m * 2 ^ e else 5 * 2 ^ (- e) <? m)
+                | None => Some (w =? 9218868437227405312)            (* +inf; -inf and nan are not > 5 *)
+                end
+  | _ => None
+  end.
 (* the implementation reports float(timetag): round to 53 bits, ties to even *)
 Definition round53 (n : Z) : Z :=
   let k := Z.log2 n - 52 in
@@ -363,22 +472,37 @@ Definition round53 (n : Z) : Z :=
        Z.shiftl (if (h <? r) || ((r =? h) && Z.odd q) then q + 1 else q) k.
 Definition time_agree (model impl : mtime) : bool :=
   match model, impl with TNow, TNow => true | TTag x, TTag y => round53 x =? y | _, _ => false end.
+(* 77777 = the invocation came from a function object shared by several responders *)
 Definition inv_agree (a b : inv) : bool :=
-  Nat.eqb (i_id a) (i_id b) && Nat.eqb (i_tag a) (i_tag b) && omsg_eqb (i_msg a) (i_msg b) && time_agree (i_time a) (i_time b)
+  (Nat.eqb (i_id b) 77777 || Nat.eqb (i_id a) (i_id b)) && Nat.eqb (i_tag a) (i_tag b) && omsg_eqb (i_msg a) (i_msg b) && time_agree (i_time a) (i_time b)
   && (fst (i_src a) =? fst (i_src b)) && (snd (i_src a) =? snd (i_src b)) && (i_port a =? i_port b).
 (* invocations of the two dispatchers may interleave either way in the implementation: compare per dispatcher *)
 Definition is_matching (st : dstate) (i : inv) : bool :=
   match nth_error (resps st) (i_id i) with Some r => r_matching r | None => false end.
 Definition split_d (st : dstate) (l : list inv) : list inv :=
   filter (fun i => negb (is_matching st i)) l ++ filter (is_matching st) l.
-Fixpoint outs_agree (st : dstate) (h : list op) (exp : list (list inv)) : bool :=
+(* the dispatchers' tables, the enabled flags and CmdPeriod's registry after every operation *)
+Definition sstate := (list bool * list (list Z * list nat) * list (list Z * list nat) * list nat)%type.
+Definition tbl_agree (t : table) (e : list (list Z * list nat)) : bool :=
+  list_eqb (fun a b => list_eqb Z.eqb (fst a) (fst b) && list_eqb Nat.eqb (snd a) (snd b))
+           (map (fun kl => (fst kl, map w_id (snd kl))) t) e.
+Definition state_agree (st : dstate) (e : sstate) : bool :=
+  match e with (en, ex, mt, cp) =>
+    list_eqb Bool.eqb (map r_enabled (resps st)) en && tbl_agree (act_exact st) ex && tbl_agree (act_match st) mt
+    && list_eqb Nat.eqb (cmdp st) cp end.
+Fixpoint outs_agree (stepf : dstate -> op -> dstate * list inv) (st : dstate) (h : list op) (exp : list (list inv * sstate)) : bool :=
   match h, exp with
   | [], [] => true
-  | o :: h', e :: exp' =>
-    let '(st', out) := step st o in
-    list_eqb inv_agree (split_d st' out) (split_d st' e) && outs_agree st' h' exp'
+  | o :: h', (e, se) :: exp' =>
+    let '(st', out) := stepf st o in
+    list_eqb inv_agree (split_d st' out) (split_d st' e) && state_agree st' se && outs_agree stepf st' h' exp'
   | _, _ => false
   end.
+(* every history through the raising-callback model; a history without raising callbacks also through model/Dispatch.v *)
+Definition hist_agree (c : list op * list nat * bool * list (list inv * sstate)) : bool :=
+  match c with (h, rs, calm, exp) =>
+    outs_agree (step_x (fun tag => existsb (Nat.eqb tag) rs)) init_state h exp
+    && (negb calm || outs_agree step init_state h exp) end.
 Definition msgs_agree (model : presult) (impl : list (mtime * omsg)) : bool :=
   match model with
   | POk ms => list_eqb (fun u v => time_agree (fst u) (fst v) && omsg_eqb (snd u) (snd v)) ms impl
@@ -398,13 +522,13 @@ def gen_valid_dgram(rng):
             if t == 'i':
                 a.append(('i', rng.choice([0, 1, -1, 2 ** 31 - 1, -2 ** 31, rng.randint(-1000, 1000)])))
             elif t == 'f':
-                a.append(('f', rng.choice([0.0, 1.5, -2.25, 1e-40, 3.0e38, float('inf')])))
+                a.append(('f', rng.choice([0.0, -0.0, 1.5, -2.25, 1e-40, 3.0e38, float('inf')])))
             elif t == 'd':
-                a.append(('d', rng.choice([0.0, -1.5, 1e300, 5e-324])))
+                a.append(('d', rng.choice([0.0, -0.0, -1.5, 1e300, 5e-324])))
             elif t == 's':
                 a.append(('s', rng.choice(['', 'a', 'abc', 'abcd', 'abcdefg', 'éé', '/x'])))
             elif t == 'b':
-                a.append(('b', bytes(rng.randrange(256) for _ in range(rng.randint(1, 9)))))
+                a.append(('b', bytes(rng.randrange(256) for _ in range(rng.choice([0, 0, 1, 3, 4, 5, 9])))))
             elif t == '[':
                 a.append(('[', None))
                 depth += 1
@@ -420,15 +544,19 @@ def gen_valid_dgram(rng):
                 a.append((']', None))
                 depth -= 1
         a += [(']', None)] * depth
+        if rng.random() < 0.12:                      # unbalanced array brackets
+            a.insert(rng.randint(0, len(a)), (rng.choice('[]'), None))
         return a
 
     def rand_msg():
-        return enc_msg(rng.choice(['/a', '/ab', '/abc', '/a/b', '/abcdefg', '/x*']), rand_args())
+        r = rng.random()
+        return enc_msg(rng.choice(['/a', '/ab', '/abc', '/a/b', '/abcdefg', '/x*', '/', '/a/']), rand_args(),
+                       comma=r > 0.08, notags=r > 0.95)
 
     def rand_bundle(depth):
         elems = []
         for _ in range(rng.randint(0, 3)):
-            if depth < 2 and rng.random() < 0.3:
+            if depth < 5 and rng.random() < (0.3 if depth < 2 else 0.6):
                 b = rand_bundle(depth + 1)
                 elems.append((b[0], (b[1], b[2])))
             else:
@@ -457,10 +585,11 @@ def gen_dgram_case(rng):
         kind = 'length'
         off = rng.choice(sizes if (sizes and (not blobs or rng.random() < 0.7)) else blobs)
         old = struct.unpack('>i', bytes(b[off:off + 4]))[0]
+        rem = len(b) - (off + 4)                      # bytes after this size field
         new = rng.choice([-4, -8, -1, -old, -old - 4, -2 ** 31, old + 4, old + 400, old + 1, old - 1, old + 2, 2 ** 31 - 1, 0, old - 4,
-                          -12, -16, -20, -(off + 4), -(off + 8)])
+                          -12, -16, -20, -(off + 4), -(off + 8), rem - 4, rem, rem + 4, rem + 1, len(b), len(b) - 4, off, off + 4])
         b[off:off + 4] = struct.pack('>i', max(-2 ** 31, min(2 ** 31 - 1, new)))
-        kind = 'length:' + ('negative' if new < 0 else 'oversized' if new > old else 'other')
+        kind = 'length:' + ('negative' if new < 0 else 'oversized' if new > rem else 'other')
     elif k < 0.76:
         kind = 'tags'
         i = bytes(b).find(b',')
@@ -493,6 +622,15 @@ FIXED_DGRAMS = [
     (b'#bundle\0' + struct.pack('>Q', 1 << 40) + struct.pack('>i', 12) + enc_msg('/m', [('i', 7)])[0], 'valid'),
     (b'', 'random'), (b'#bundle\0', 'truncated'),
 ]
+# every length 0..20 of three valid datagrams
+for _d in (enc_msg('/ab', [('i', 1), ('s', 'xy')])[0], enc_bundle(2, [(enc_msg('/a', [])[0], ([], []))])[0],
+           enc_bundle(1, [(enc_bundle(2, [])[0], ([], [])), (enc_msg('/a', [('T', None)])[0], ([], []))])[0]):
+    FIXED_DGRAMS += [(_d[:_n], 'truncated') for _n in range(0, 21)]
+# nesting depth 0..5
+_d = enc_msg('/deep', [('i', 5)])[0]
+for _n in range(6):
+    FIXED_DGRAMS.append((_d, 'valid'))
+    _d = enc_bundle(3 + _n, [(_d, ([], []))])[0]
 
 
 def msgs_term(out):
@@ -528,8 +666,10 @@ def gen_reg_history(rng, n):
             ops.append(['sv_run', rng.randint(0, 2)])
         elif k < 0.86:
             ops.append(['nc_register', rng.randint(1, 2), rng.randint(1, 2), rng.randint(1, 4), rng.randint(1, 9)])
-        elif k < 0.92:
+        elif k < 0.90:
             ops.append(['nc_unregister', rng.randint(1, 2), rng.randint(1, 2), rng.randint(1, 4)])
+        elif k < 0.93:
+            ops.append(['nc_unregister_msg', rng.randint(1, 2), rng.randint(1, 2)] if rng.random() < 0.7 else ['nc_unregister_obj', rng.randint(1, 2)])
         else:
             ops.append(['nc_notify', rng.randint(1, 2), rng.randint(1, 2)])
     return {'ops': ops, 'removes': {str(k): v for k, v in removes.items()}}
@@ -561,6 +701,10 @@ def rop_term(op):
         return '(NcUnregister %d %d %d)' % tuple(op[1:])
     if k == 'nc_notify':
         return '(NcNotify %d %d)' % tuple(op[1:])
+    if k == 'nc_unregister_msg':
+        return '(NcUnregisterMsg %d %d)' % tuple(op[1:])
+    if k == 'nc_unregister_obj':
+        return '(NcUnregisterObj %d)' % op[1]
     raise ValueError(op)
 
 
@@ -572,9 +716,9 @@ def corr_registry(ctx, c):
     items = []
     for h, o in zip(hs, out):
         rm = h['removes']
-        remf = '(fun a => %s [])' % ''.join('if Nat.eqb a %s then [%s] else ' % (k, '; '.join(map(str, v))) for k, v in sorted(rm.items()))
+        remf = '(fun a : nat => %s ([] : list nat))' % ''.join('if Nat.eqb a %s then [%s] else ' % (k, '; '.join(map(str, v))) for k, v in sorted(rm.items()))
         exp = '[%s]' % '; '.join('[%s]' % '; '.join('(%d, %d)' % (x[0], x[1]) if isinstance(x[1], int) and x[0] >= 0 else '(77777, 0)' for x in lg) for lg in o)
-        items.append('(%s, [%s], %s)' % (remf, '; '.join(rop_term(op) for op in h['ops']), exp))
+        items.append('(%s, [%s], (%s : list (list (nat * nat))))' % (remf, '; '.join(rop_term(op) for op in h['ops']), exp))
         for op in h['ops']:
             c.count('registry-op:' + op[0])
         if any(len(lg) >= 2 for lg in o):
@@ -626,30 +770,77 @@ def corr_rt(ctx, c):
     udp = [dc for dc in dcases if dc['kind'] == 'valid'][:4] + [dc for dc in dcases if dc['kind'].startswith('length')][:6] \
         + [dc for dc in dcases if dc['kind'] == 'truncated'][:3]
     base = free_port_base(rng)
-    res = ctx.impl('c18_rt', {'port': base, 'histories': hists, 'dgrams': dcases, 'udp': udp, 'watchdog': 0.3},
+    res = ctx.impl('c18_rt', {'port': base, 'histories': hists, 'dgrams': dcases, 'udp': udp, 'watchdog': 0.3, 'probes': True},
                    mode='rt', timeout=ctx.n(170, 800))
     ports = res['ports']
+    pr = res['probes']
+    # fixed probes (class 2 / 4): signatured findings with the input as replay
+    shared_defect = pr['shared_replace'] != ['F', 'G']
+    if shared_defect:
+        c.failures.append(Failure('correspondence', "two responders on '/c18p' created with the SAME function object F, then r1.func = G: "
+                                  'the message invokes %s, registration order demands [F, G] (list.index finds the first equal entry: '
+                                  "the replacement lands in the other responder's place)" % pr['shared_replace'],
+                                  signature='C18:shared-function-replace-order', found_input=True, theorem='dispatch_exact',
+                                  replay={'kind': 'probe', 'probe': 'shared_replace', 'impl': pr['shared_replace'],
+                                          'how': "r0 = OscFunc(F, '/p'); r1 = OscFunc(F, '/p'); r1.func = G; send '/p'"}))
+    ex, aex, bx, abx = pr['exception'], pr['after_exception'], pr['baseexception'], pr['after_baseexception']
+    c.notes.append('responders a, b, c on one path, b raises ValueError: invoked %s (the exception ends the clock task of that message); next '
+                   'message invokes %s' % (ex['log'], aex['log']))
+    if aex['log'] != ['a', 'b', 'c'] or aex['raised'] or ex['raised'] or ex['in_awake_call']:
+        c.failures.append(Failure('correspondence', 'after a responder raised ValueError the next message invokes %s (raised=%s, '
+                                  '_in_awake_call left %s), expected [a, b, c]' % (aex['log'], aex['raised'], ex['in_awake_call']),
+                                  signature='C18:callback-exception-breaks-dispatch', found_input=True, theorem='receiver_survives',
+                                  replay={'kind': 'probe', 'probe': 'exception', 'impl': [ex, aex]}))
+    if abx['log'] != ['a', 'b', 'c'] or abx['raised'] or bx['raised']:
+        c.failures.append(Failure('correspondence', 'a responder function raises a BaseException that is not an Exception (like SystemExit from sys.exit()): '
+                                  'invoked %s; the NEXT message then invokes %s (%s), expected [a, b, c]: the SystemClock thread that runs the '
+                                  'responders has ended, no later message reaches any responder' % (bx['log'], abx['log'], abx['raised']),
+                                  signature='C18:callback-baseexception-kills-dispatch', found_input=True, theorem='receiver_survives',
+                                  replay={'kind': 'probe', 'probe': 'baseexception', 'impl': [bx, abx],
+                                          'how': "OscFunc(lambda: sys.exit(), '/p'); send '/p' twice"}))
     # (ii)
     items = []
     for h, o in zip(hists, res['histories']):
-        items.append('([%s], [%s])' % ('; '.join(op_term(op, ports) for op in h),
-                                       '; '.join('[%s]' % '; '.join(inv_term(x) for x in lg) for lg in o)))
+        hk = hist_kind(h)
+        exp = []
+        for op, r in zip(h, o):
+            lg = r['log']
+            if op[0] == 'create' and op[1] == '' and lg == ['OPERROR:IndexError']:
+                lg = []                                   # path[0] on '' : refused, as the model says
+            exp.append('(([%s] : list inv), %s)' % ('; '.join(inv_term(x) for x in lg), state_term(r['state'])))
+        calm = not (hk['raise'] or hk['predx'])
+        items.append('([%s], ([%s] : list nat), %s, [%s])' % ('; '.join(op_term(op, ports) for op in h),
+                                                                '; '.join('%d%%nat' % t for t in raises_of(h)), cbool(calm), '; '.join(exp)))
         for op in h:
             c.count('history-op:' + op[0])
-        ninv = sum(len(lg) for lg in o)
+        c.count('history-kind:' + ('share' if hk['share'] else 'raise' if (hk['raise'] or hk['predx']) else 'plain'))
+        ninv = sum(len([x for x in r['log'] if not isinstance(x, str)]) for r in o)
         c.count('history-invocations', ninv)
         if ninv >= 1:
             c.nontriv(('hist', json.dumps(h)))
-    body = 'Eval vm_compute in bad_idx (fun c => outs_agree init_state (fst c) (snd c)) cases.'
+    body = 'Eval vm_compute in bad_idx hist_agree cases.'
     bad, errs = fw.check_shards(ctx, 'hist', RT_HEADER, items, body, shard=12)
     for e in errs:
         c.failures.append(Failure('correspondence', 'coq evaluation of responder histories failed: ' + e))
-    for i in sorted(bad, key=lambda i: len(hists[i]))[:4]:
-        c.failures.append(Failure('correspondence', 'responder history: model and implementation disagree; ops=%s impl invocations=%s' % (
-            json.dumps(hists[i]), json.dumps([[x if isinstance(x, str) else x[:2] for x in lg] for lg in res['histories'][i]])),
-            replay={'kind': 'history', 'ops': hists[i], 'impl': res['histories'][i], 'ports': ports}))
-    if any(l != [0, 0] for l in res['leftover']):
-        c.notes.append('dispatcher tables not empty after freeing every responder: %s' % [l for l in res['leftover'] if l != [0, 0]][:3])
+    shown = 0
+    for i in sorted(bad, key=lambda i: len(hists[i])):
+        share = hist_kind(hists[i])['share']
+        if share and shared_defect:
+            c.count('history-mismatch-explained-by:C18:shared-function-replace-order')
+            continue
+        if shown >= 4:
+            break
+        shown += 1
+        c.failures.append(Failure('correspondence', 'responder history: model and implementation disagree (invocations, dispatcher tables, enabled '
+                                  'flags or CmdPeriod registry); ops=%s impl=%s' % (json.dumps(hists[i]), json.dumps(
+                                      [{'log': [x if isinstance(x, str) else x[:2] for x in r['log']], 'state': r['state']} for r in res['histories'][i]])),
+                                  replay={'kind': 'history', 'ops': hists[i], 'impl': res['histories'][i], 'ports': ports}))
+    left = [(i, l) for i, l in enumerate(res['leftover']) if l != [0, 0]]
+    if left:
+        i, l = left[0]
+        c.failures.append(Failure('correspondence', 'after free() of every responder of a history the dispatchers still hold %s extra paths '
+                                  '(exact, matching): ops=%s' % (l, json.dumps(hists[i])), found_input=True, theorem='disabled_freed_oneshot_never',
+                                  replay={'kind': 'history', 'ops': hists[i], 'impl': res['histories'][i], 'ports': ports, 'leftover': l}))
     c.count('cross-dispatcher-order:' + '>'.join(res.get('order', [])))
     c.notes.append('cross-dispatcher order observed for one message (exact vs matching dispatcher, both live in a set): %s' % res.get('order'))
     # (iii)
@@ -766,7 +957,7 @@ def search(ctx, failures):
                              replay={'kind': 'dgram', 'case': dc, 'impl': o,
                                      'how': 'main._osc_interface._handle_request(bytes.fromhex(hex), ("127.0.0.1", 9001))'}))
     h = res['histories']
-    ids = lambda lg: [x[0] for x in lg if not isinstance(x, str)]
+    ids = lambda r: [x[0] for x in r['log'] if not isinstance(x, str)]
     if ids(h[0][4]) != [0, 1, 2]:
         found.append(Failure('search', 'responders 0 (one-shot), 1, 2 on /a; message /a invokes %s instead of [0, 1, 2]: the responder registered after a '
                                        'one-shot responder misses the message' % ids(h[0][4]), signature='C18:oneshot-skips-next', found_input=True,
